@@ -72,7 +72,7 @@ def main():
     a = ap.parse_args()
     have = sorted(f[:-3].upper() for f in os.listdir(os.path.join(ROOT, "vf", "props")) if re.match(r"c\d\d\.py$", f))
     seeds = a.seeds or sorted(os.listdir(SEEDED))
-    mpath = os.path.join(ROOT, "selftest", "matrix.json")
+    mpath = os.environ.get("MATRIX_JSON") or os.path.join(ROOT, "selftest", "matrix.json")
     matrix = json.load(open(mpath)) if os.path.exists(mpath) else {}
     for sid in seeds:
         own = sid.split("-")[0]
